@@ -277,11 +277,42 @@ def h_example_tuple(e):
     e.claim("canary:tuple", cond("==", val(got), a + b + 1))
 
 
-HARNESSES = {"decode": h_decode, "encode": h_encode, "asm": h_asm, "sum": h_example_sum, "tuple": h_example_tuple}
+TOY_SPELLINGS = [("0", 0), ("7", 7), ("007", 7), ("0008", 8), ("0100", 100), ("00", 0), ("4095", 4095), ("0x0", 0), ("0x00F", 15), ("0xfff", 4095), ("0xAbC", 0xABC), ("0x010", 16), ("0x0008", 8)]
+
+
+def h_numbers(e, i):
+    """operand and data spellings the grammar accepts (leading zeros, hexadecimal digit case):
+    the memory image equals that of the canonical decimal spelling and holds the denoted values"""
+    from architecture_simulator.simulation.toy_simulation import ToySimulation
+
+    sp, v = TOY_SPELLINGS[i]
+    text = ".data\nw: .word %s, 1\n.text\nLDA %s\nadd %s\nSTO w"
+    a, b = ToySimulation(), ToySimulation()
+    try:
+        a.load_program(text % (sp, sp, sp))
+        exc = None
+    except Exception as ex:  # noqa
+        exc = ex
+    e.observe("exception", type(exc).__name__ if exc else None)
+    e.claim("assembles", exc is None, {"spelling": sp, "exception": repr(exc)[:120]})
+    if exc is not None:
+        return
+    b.load_program(text % (v, v, v))
+    ia = {k: int(x) for k, x in sorted(a.state.memory.memory_file.items())}
+    ib = {k: int(x) for k, x in sorted(b.state.memory.memory_file.items())}
+    e.claim("same-image-as-canonical-decimal", ia == ib, {"spelled": ia, "canonical": ib})
+    e.claim("operand-of-first-instruction", ia.get(0, 0) & 0xFFF == v, {"word": ia.get(0)})
+    e.claim("data-word-present", v in ia.values() or v == 0)
+    e.claim("canary:num", ia == {})
+
+
+HARNESSES = {"decode": h_decode, "encode": h_encode, "asm": h_asm, "sum": h_example_sum, "tuple": h_example_tuple, "numbers": h_numbers}
 
 
 def jobs(tier, seed):
     out = [{"label": "decode", "harness": "decode", "args": {}, "cost": 5}]
+    for i in range(len(TOY_SPELLINGS)):
+        out.append({"label": "num-%d" % i, "harness": "numbers", "args": {"i": i}, "cost": 1})
     for m in T.MNEMONIC:
         out.append({"label": "encode-" + m, "harness": "encode", "args": {"mnemonic": m}, "cost": 1})
     L = 2 if tier == "quick" else 3
